@@ -16,6 +16,7 @@ key outputs / status report, loop documents and loop state.  Packages and histor
 import contextlib
 import hashlib
 import os
+import re
 import sys
 
 import yaml
@@ -53,7 +54,9 @@ RULE = ('Packages: {platform default | P; the document defines both, P overrides
         'others {Pa,Pv}; thorough: DoWhile packages {I,Pa,Pv}, others {Pa,Pv,Pe}. Every prefix of every word is a state '
         'and is judged exactly once (in the run of its lexicographically first extension): 1 load without update, 1 '
         'load+store cycle (3 cycles for prefixes of length <=1 quick / <=2 thorough), for P instances 1 load under '
-        'platform=None, for DoWhile packages the continuation step; after every load/store the stored files are compared. '
+        'platform=None and (prefixes of length <=1 quick / <=2 thorough) the default call experimentFromInstance(dir) = '
+        'load+store under platform=None followed by a load with the platform of the instance; for DoWhile packages the '
+        'continuation step (only if CONTINUATION); after every load/store the stored files are compared. '
         'A case = (package, history prefix, kind of reload); all cases are non-trivial (>=5 components, two platforms, '
         'layered values); distinct = distinct case.')
 ASSUMPTIONS = [
@@ -63,6 +66,10 @@ ASSUMPTIONS = [
     'an instance is reloaded with the platform it was created for (elaunch --restart does that); instances created for '
     'P are additionally reloaded with platform=None (etest/ememo refuse a platform for an instance directory): then the '
     'platform-keyed `override` section and the platform name are not compared (rule R2 of the oracle)',
+    'the fixed point clause ("loading and storing again does not change the stored description") also covers the '
+    'default call experimentFromInstance(dir) (platform=None, updateInstanceConfiguration=True; scripts/ewrap.py) on an '
+    'instance created for P: the stored description must not change and a following load with platform P must still '
+    'give the experiment that wrote the instance; the harness then writes the original files back',
     'FLOW_RUN_ID (a fresh uuid per Experiment object) is removed from environments (R1)',
     'graph edges from a non-latest instance of the loop-condition producer to a consumer that has no data reference to '
     'it are ignored on both sides (R3: the live graph never removes them, they carry no data); every edge implied by a '
@@ -308,6 +315,19 @@ def apply_op(spec, exp, letter, j, pending):
 
 
 # ------------------------------------------------------------------------------------------------- judging
+_SCRATCH = re.compile(r'/[^\s"\']*?/c07-[A-Za-z0-9_]{6,10}(?=/|\b)')
+
+
+def report(col, case, why, observed=None, sig=None):
+    """col.fail with the name of the scratch directory (random per run) replaced, so that a replay reproduces the
+    same text."""
+    import json
+    why = _SCRATCH.sub('<ROOT>', str(why))
+    if observed is not None:
+        observed = json.loads(_SCRATCH.sub('<ROOT>', canon(observed)))
+    col.fail(case, why, observed, sig=sig)
+
+
 def short(diffs, n=12):
     return O.jclone(diffs[:n])
 
@@ -326,7 +346,7 @@ def judge_reload(col, case, kind, mem, inst, platform, update, pending, mode):
     except Exception as e:
         import traceback
         col.outcome('FAIL:reload-raises')
-        col.fail(c, 'loading the instance directory that the live experiment wrote raises %s: %s' % (type(e).__name__, str(e)[:600]),
+        report(col, c, 'loading the instance directory that the live experiment wrote raises %s: %s' % (type(e).__name__, str(e)[:600]),
                  {'traceback': traceback.format_exc()[-1500:], 'message': ' '.join(str(e).split())[-400:]},
                  sig='reload-raises:%s' % type(e).__name__)
         return None
@@ -343,12 +363,12 @@ def judge_reload(col, case, kind, mem, inst, platform, update, pending, mode):
     if other:
         sig = 'differs:' + O.signature(other)
         col.outcome('FAIL:' + sig)
-        col.fail(c, 'the re-loaded experiment (%s) differs from the experiment that wrote the instance: %s'
+        report(col, c, 'the re-loaded experiment (%s) differs from the experiment that wrote the instance: %s'
                  % (kind, canon(short(other, 6))[:1200]),
                  {'diffs': short(other), 'n_diffs': len(other), 'also_lost_patches': short(lost, 4)}, sig=sig)
     elif lost:
         col.outcome('FAIL:patch-lost')
-        col.fail(c, 'an option patched with setOptionForNode and stored with store_unreplicated_flowir_to_disk is not in '
+        report(col, c, 'an option patched with setOptionForNode and stored with store_unreplicated_flowir_to_disk is not in '
                     'the re-loaded experiment (%s): %s' % (kind, canon(short(lost, 4))[:1000]),
                  {'diffs': short(lost), 'n_diffs': len(lost), 'pending_nodes': sorted(pending)}, sig='patch-lost')
     else:
@@ -372,7 +392,7 @@ def judge_stored(col, case, kind, before, after, must_be_bytes, sig_suffix=''):
         else:
             sig, why = 'fixed-point' + sig_suffix, 'loading and storing again changed the stored description'
         col.outcome('FAIL:' + sig)
-        col.fail(c, '%s (%s): %s' % (why, kind, canon(details)[:1200]), {'details': O.jclone(details)}, sig=sig)
+        report(col, c, '%s (%s): %s' % (why, kind, canon(details)[:1200]), {'details': O.jclone(details)}, sig=sig)
 
 
 def judge_continuation(col, case, cont_obs, mem_next):
@@ -383,7 +403,7 @@ def judge_continuation(col, case, cont_obs, mem_next):
     if diffs:
         sig = 'continuation:' + O.signature(diffs)
         col.outcome('FAIL:' + sig)
-        col.fail(c, 'the next loop iteration instantiated on the re-loaded experiment differs from the one instantiated '
+        report(col, c, 'the next loop iteration instantiated on the re-loaded experiment differs from the one instantiated '
                     'on the writing experiment: %s' % canon(short(diffs, 6))[:1200],
                  {'diffs': short(diffs, 40), 'n_diffs': len(diffs)}, sig=sig)
     else:
@@ -401,7 +421,7 @@ def check_state(col, spec, prefix, exp, inst, pending, want_continuation, thorou
     if set(files0) != set(STORED):
         col.evaluated()
         col.outcome('FAIL:stored-file-missing')
-        col.fail(dict(case, reload='files'), 'the live experiment did not leave %s' % sorted(set(STORED) - set(files0)),
+        report(col, dict(case, reload='files'), 'the live experiment did not leave %s' % sorted(set(STORED) - set(files0)),
                  None, sig='stored-file-missing')
         return None
     cont = None
@@ -418,7 +438,7 @@ def check_state(col, spec, prefix, exp, inst, pending, want_continuation, thorou
             import traceback
             col.evaluated()
             col.outcome('FAIL:continuation-raises')
-            col.fail(dict(case, reload='continuation'), 'instantiating the next iteration on the re-loaded experiment raises %s: %s'
+            report(col, dict(case, reload='continuation'), 'instantiating the next iteration on the re-loaded experiment raises %s: %s'
                      % (type(e).__name__, str(e)[:500]), {'traceback': traceback.format_exc()[-1500:]},
                      sig='continuation-raises:%s' % type(e).__name__)
             cont = None
